@@ -319,9 +319,28 @@ def gen_swap_case(rng: random.Random) -> Case:
     return Case(types, [first, second], guard)
 
 
+def gen_cmp_cross_case(rng: random.Random) -> Case:
+    """eq!/ne! operands of the same type at *different* argument positions in the two alternatives (the hoisted
+    operand locals of the alternatives must not get mixed up)."""
+    t = rng.choice(list(CMP_TYPES))
+    extra = rng.choice([[], ["bool"], ["str"]])
+    types = [t, t] + extra
+    first = [GEN[t](rng) if rng.random() < 0.5 else p_wild(), gen_cmp(rng, t)]
+    second = [gen_cmp(rng, t), GEN[t](rng) if rng.random() < 0.5 else p_wild()]
+    if rng.random() < 0.3:
+        first[0] = gen_cmp(rng, t)
+    for x in extra:
+        first.append(GEN[x](rng))
+        second.append(GEN[x](rng))
+    return Case(types, [first, second], None)
+
+
 def gen_case(rng: random.Random) -> Case:
-    if rng.random() < 0.06:
+    r = rng.random()
+    if r < 0.06:
         return gen_swap_case(rng)
+    if r < 0.12:
+        return gen_cmp_cross_case(rng)
     n = rng.choice([0, 1, 1, 2, 2, 2, 3, 3])
     types = [rng.choice(list(TYPES)) for _ in range(n)]
     if n == 0:
